@@ -255,7 +255,16 @@ def run_keys(ctx, spec):
       if bool(ret) != anyw or (not ns and ret is not False):
         ctx.violation('checkgcd-return', 'returned %r' % (ret,), {'ns': ns})
     # CheckGCDN1 with several bounds
-    for bound in (1, 2, 2 ** 20, 2 ** 128):
+    # bounds: powers of two and values at / next to the gcds that occur (the
+    # comparison is against the bound itself, not its size)
+    gs = sorted({g for g in model_batchgcd([n - 1 for n in ns]) if g > 2})
+    near = []
+    for g in ([rng.choice(gs), gs[-1]] if gs else []):
+      near += [g, g + 1, g - 1, g + g // 8 + 1, 3 << max(g.bit_length() - 2, 0)]
+    if near:
+      ctx.count('n1_bounds_next_to_a_gcd', len(near))
+    for bound in [1, 2, 2 ** 20, 2 ** 128] + (near if len(ns) <= 70 else
+                                              near[:2]):
       keys = [gen.rsa_key(n) for n in ns]
       try:
         ret = agg.CheckGCDN1(gcd_bound=bound).Check(keys)
@@ -278,7 +287,7 @@ def run_keys(ctx, spec):
         facs = set(int(x, 16) for x in eval(fac)) if fac else set()  # pylint: disable=eval-used
         if flagged != (g >= bound):
           ctx.violation('checkgcdn1-verdict', 'key %d: flagged=%s, gcd(n-1, '
-                        'others) = %d, bound 2^%d' % (
+                        'others) = %d, bound ~2^%d' % (
                             i, flagged, g, bound.bit_length() - 1),
                         {'ns': ns, 'i': i, 'bound': bound})
         elif flagged and facs != {g}:
@@ -304,7 +313,8 @@ def finalize(agg, tier):
   c = agg['counters']
   inc = ['reach counter %s is zero' % k for k in (
       'contract:ExtendedProductTree', 'odd_level_batches',
-      'keys_with_shared_factor', 'n1_large_shared', 'large_key_batches') if not c.get(k)]
+      'keys_with_shared_factor', 'n1_large_shared', 'large_key_batches',
+      'n1_bounds_next_to_a_gcd') if not c.get(k)]
   top = 130 if tier == 'quick' else 520
   if c.get('batch_sizes_seen', 0) < top and not agg['violations']:
     inc.append('fewer batch sizes observed than planned')
